@@ -20,8 +20,10 @@ rm -f "$log"
 FZ="$HERE/fuzz/target/x86_64-unknown-linux-gnu/release/fuzz_prop"
 SUBS="$("$HERE/harness/target/release/check" --property "$ID" --list-subs)"
 total=0; found=0
-for sub in $SUBS; do
-  corpus="$(mktemp -d "$HERE/fuzz/corpus-run.XXXXXX")"
+OUTD="$(mktemp -d "$HERE/fuzz/corpus-run.XXXXXX")"
+run_sub() {
+  sub="$1"
+  corpus="$OUTD/corpus-$sub"; mkdir -p "$corpus"
   # deterministic seed corpus: a few pseudo-random files of different lengths
   python3 - "$corpus" "$SEED" "$sub" <<'PY'
 import sys, hashlib
@@ -32,21 +34,28 @@ for i, n in enumerate([64, 256, 1024, 4096]):
         out += hashlib.sha256(f"{seed}/{sub}/{i}/{c}".encode()).digest(); c += 1
     open(f"{d}/seed{i}", "wb").write(out[:n])
 PY
-  out="$(VERIF_FUZZ_PROP="$ID" VERIF_FUZZ_SUB="$sub" VERIF_FUZZ_TIER=thorough VERIF_SEED="$SEED" \
-        "$FZ" -runs="$RUNS" -seed="$((SEED + 1))" -max_len=8192 -len_control=0 -timeout=120 -rss_limit_mb=8192 \
-        -artifact_prefix="$corpus/" "$corpus" 2>&1)"
-  rc=$?
+  VERIF_FUZZ_PROP="$ID" VERIF_FUZZ_SUB="$sub" VERIF_FUZZ_TIER=thorough VERIF_SEED="$SEED" \
+    "$FZ" -runs="$RUNS" -seed="$((SEED + 1))" -max_len=8192 -len_control=0 -timeout=300 -rss_limit_mb=8192 \
+    -artifact_prefix="$corpus/" "$corpus" > "$OUTD/out-$sub.txt" 2>&1
+  echo $? > "$OUTD/rc-$sub.txt"
   rm -rf "$corpus"
+}
+export -f run_sub; export OUTD SEED ID FZ RUNS
+# sub-checks run in parallel (each libFuzzer process is single-threaded)
+echo "$SUBS" | tr ' ' '\n' | grep -v '^$' | xargs -P "${VERIF_FUZZ_JOBS:-12}" -I{} bash -c 'run_sub {}'
+for sub in $SUBS; do
   total=$((total + RUNS))
-  line="$(echo "$out" | grep -m1 '^FUZZ-VIOLATION')"
+  rc="$(cat "$OUTD/rc-$sub.txt" 2>/dev/null || echo 99)"
+  line="$(grep -m1 '^FUZZ-VIOLATION' "$OUTD/out-$sub.txt" 2>/dev/null)"
   if [ -n "$line" ]; then
-    echo "$out" | grep -m1 '^DETAIL'
+    grep -m1 '^DETAIL' "$OUTD/out-$sub.txt"
     echo "VIOLATION ${line#FUZZ-VIOLATION }"
     found=1
-  elif [ $rc -ne 0 ]; then
+  elif [ "$rc" != "0" ]; then
     echo "NOTICE fuzz supplement: sub $sub ended with status $rc without a property violation (timeout/oom/crash in harness); ignored"
   fi
 done
+rm -rf "$OUTD"
 # record the supplement in the evidence file
 python3 - "$HERE/evidence/$ID.json" "$total" "$RUNS" <<'PY'
 import json, sys
